@@ -127,6 +127,9 @@ func Gen(r *hc.RNG, o GenOptions) (Scenario, map[int]bool) {
 		if o.Wait && r.Chance(3) {
 			s.Actions = append(s.Actions, Action{Op: "W"})
 		}
+		if r.Chance(10) { // the gap timers fire (through the hook, no real waiting)
+			s.Actions = append(s.Actions, Action{Op: "F"})
+		}
 	}
 	// marker entries never travel in containers: split them out of every push into HandleAffected
 	// actions (before or after the rest of the container), and sprinkle count-0 results
